@@ -241,6 +241,29 @@ pub fn run(ctx: &Ctx) -> Report {
             }
         }
     }
+    // (2h) the library re-entered on the same thread from inside an application attribute that seals an
+    // inner message while the outer one is serialised / sealed; an application attribute that leaves its
+    // padding to the (zeroed) destination, after an unrelated message full of 0xFF was sealed on the thread
+    for k in 0..2u8 {
+        for s in sealings(0) {
+            for pre in [vec![], vec![alpha[0].clone()], vec![Op::Elsewhere(0)]] {
+                let mut ops = pre.clone();
+                ops.push(Op::Nested(k));
+                ops.extend(s.clone());
+                cases2.push(Prog { class: k, method: 1, tid: tid0, ops }.to_case("build"));
+            }
+        }
+    }
+    for l in 0..=9u16 {
+        for s in sealings(1) {
+            for pre in [vec![Op::Elsewhere(0)], vec![Op::Elsewhere(1), alpha[6].clone()], vec![]] {
+                let mut ops = pre.clone();
+                ops.push(Op::CustomLazy(l));
+                ops.extend(s.clone());
+                cases2.push(Prog { class: (l % 4) as u8, method: 1, tid: tid0, ops }.to_case("build"));
+            }
+        }
+    }
     // (2g) a base builder kept beside the one that is sealed (clone, diverge, go back): what one of
     // them serialised or sealed does not show in the other
     for (i, l) in attr_lists(&alpha, 2).iter().enumerate() {
@@ -264,7 +287,7 @@ pub fn run(ctx: &Ctx) -> Report {
     // (2e) after a panic that was caught elsewhere in the process while the library serialised an
     // application attribute (inside add_fingerprint / add_message_integrity / build / write_into /
     // into_owned): building, sealing and reading back work as before
-    for k in 0..5u8 {
+    for k in (0..5u8).chain(8..13) {
         for ops in [vec![Op::Poison(k), alpha[0].clone(), Op::Fp], vec![Op::Poison(k), alpha[6].clone(), Op::Sha1(0), Op::Sha256(0), Op::Fp], vec![alpha[6].clone(), Op::Poison(k), Op::Sha256(1), Op::Fp], vec![Op::Poison(k), Op::Custom(3), Op::IntoOwned, Op::Sha1(1), Op::Fp]] {
             cases2.push(Prog { class: 2, method: 1, tid: tid0, ops }.to_case("build"));
         }
@@ -368,10 +391,13 @@ pub fn run(ctx: &Ctx) -> Report {
     let acc2 = crate::props::sweep(cases2.into_par_iter(), judge);
     let mut acc = acc1.merge(acc2);
     acc.nontrivial = *acc.outcomes.get("built and read back").unwrap_or(&0) + acc.violations.values().map(|(_, n)| *n).sum::<u64>();
+    // thread teardown: 15 build / seal / parse programs in the body of a thread and again from a
+    // thread-local destructor at its exit (child process)
+    crate::teardown::judge(P, "builder", &mut acc);
     Report {
         acc,
         exhaustive: true,
-        rule: "all lists of pairwise distinct attributes up to the depth over a 42-entry alphabet (16 non-sealing built-in types with 2-3 values each + raw types) x 8 sealing combinations x {short-term, long-term}, each short-term program also with into_owned() before the sealing, into_owned()+clone() at the end, and the builder measured / serialised after every operation; 100 header variants x 3 lists x 8 sealings; one-attribute messages over the whole encode-side value alphabet of every built-in type, unsealed and sealed; all 4096 methods x 4 classes; one-attribute messages of every length 0..=763 (USERNAME 0..=513); every encode-side value of every type; every 16-bit type code as a raw attribute (alone; behind SOFTWARE and fully sealed); values that look like FINGERPRINT / MI / MI-SHA256 attribute headers or a STUN header, first / middle / last, under every sealing; distinct_nontrivial = programs the builder ran to completion".into(),
+        rule: "(thread teardown probe: 15 build / seal / parse programs also from a thread-local destructor, in a child process) all lists of pairwise distinct attributes up to the depth over a 42-entry alphabet (16 non-sealing built-in types with 2-3 values each + raw types) x 8 sealing combinations x {short-term, long-term}, each short-term program also with into_owned() before the sealing, into_owned()+clone() at the end, and the builder measured / serialised after every operation; 100 header variants x 3 lists x 8 sealings; one-attribute messages over the whole encode-side value alphabet of every built-in type, unsealed and sealed; all 4096 methods x 4 classes; one-attribute messages of every length 0..=763 (USERNAME 0..=513); every encode-side value of every type; every 16-bit type code as a raw attribute (alone; behind SOFTWARE and fully sealed); values that look like FINGERPRINT / MI / MI-SHA256 attribute headers or a STUN header, first / middle / last, under every sealing; distinct_nontrivial = programs the builder ran to completion".into(),
         bounds: json!({"attribute_lists": n_lists, "list_depth": depth, "alphabet": alpha.len(), "sealings": 8}),
         assumptions: vec!["messages larger than the 16-bit length field are outside the statement".into()],
         ..Default::default()
